@@ -3,6 +3,7 @@
   Theorems about NibiruModel.Oracle (x/oracle/keeper/ballot.go, update_exchange_rates.go, types/ballot.go).
 -/
 import NibiruProofs.OracleMedian
+import Generated.Facts
 namespace Nibiru.Oracle
 open Nibiru.Dec
 
@@ -512,5 +513,16 @@ theorem C10_abstain_no_influence (b : List BVote) (a : BVote) (hwf : WFBallot b)
       have := spa.least x (hpa.symm.subset hx) hlt
       rw [powerWhere_perm _ hpa] at this; exact this
   exact ScanSpec_unique _ _ _ (List.Perm.refl _) _ _ spa' spb'
+
+/-! ### T1 (regenerated from x/oracle/abci.go and x/oracle/types/core.go on every run) -/
+
+/-- the tally runs exactly at the last block of a vote period: the end blocker calls `UpdateExchangeRates` under `IsPeriodLastBlock(VotePeriod)` and
+    `SlashAndResetMissCounters` under `IsPeriodLastBlock(SlashWindow)`, nothing else, and a period's last block is the one whose
+    height + 1 is a multiple of the period (the correspondence run calls the two keeper functions directly) -/
+theorem fact_C10_end_blocker_gates :
+    Generated.oracleEndBlockerCalls =
+      [("types.IsPeriodLastBlock(ctx, params.VotePeriod)", "UpdateExchangeRates"),
+       ("types.IsPeriodLastBlock(ctx, params.SlashWindow)", "SlashAndResetMissCounters")] ∧
+    Generated.oraclePeriodLastBlockExpr = "((uint64)(ctx.BlockHeight())+1)%blocksPerPeriod == 0" := by decide
 
 end Nibiru.Oracle
